@@ -220,7 +220,7 @@ def body_factory(tier, seed):
 
 
 def run(rep, tier, seed):
-    return C.standard_run(rep, PROP, ["Model/CaseRouting.vo"], body_factory(tier, seed), rule=(
+    return C.standard_run(rep, PROP, ["Model/CaseRouting.vo"], [body_factory(tier, seed + 1000 * i) for i in range(3 if tier == "thorough" else 1)], rule=(
         "one case = a generated class hierarchy (1-5 classes, inheritance depth <= 3, siblings, the same method names reused "
         "across classes, on/after/skip flags, sync/async, undecorated overrides, properties that raise when evaluated) defined "
         "for real in two definition orders, one instance per class; the route map read back as (owner class, function name, "
